@@ -20,6 +20,9 @@ import (
 // allScripts is the mixed workload shared by the history-based checks.
 var allScripts = []string{"transfers", "staking", "delegation", "valrewards", "governance", "ons", "eth", "evidence", "olvm", "bid"}
 
+// exitScripts is allScripts with the staking script's mass-exit variant.
+var exitScripts = []string{"transfers", "staking-exit", "delegation", "valrewards", "governance", "ons", "eth", "evidence", "olvm", "bid"}
+
 func tierN(tier string, quick, thorough int) int {
 	if tier == "thorough" {
 		return thorough
@@ -123,9 +126,16 @@ func checkC01(tier string) int {
 			fr = 0 // genesis staking options stay in force: election boundary reachable
 		}
 		params := world.Params{Frankenstein: fr, NumCandidates: 3, NumEthUsers: 3, TopValidators: 5, ChainID: fmt.Sprintf("OneLedger-c01-%d", hseed)}
+		scripts := allScripts
+		if i%3 == 2 {
+			// a larger validator set of which five members leave the active set in one block (and return later):
+			// block-end work that touches several validators at once
+			params.NumGenesisVals, params.TopValidators, params.NumCandidates = 7, 8, 1
+			scripts = exitScripts
+		}
 		restarted := false
 		cfg := drive.Cfg{
-			Tag: "c01", Seed: hseed, Blocks: blocks, Params: params, Scripts: allScripts, Scout: true, Jumps: true, Absents: true, Honest: true,
+			Tag: "c01", Seed: hseed, Blocks: blocks, Params: params, Scripts: scripts, Scout: true, Jumps: true, Absents: true, Honest: true,
 		}
 		w0, _ := world.New(params)
 		cfg.Specs = []world.NodeSpec{
